@@ -8,6 +8,7 @@ CONSTANTS RelPids, UnrelPids,  \* inbound packet IDs that are reliable / unrelia
           MaxSends, MaxUnrel,  \* reliable / unreliable sends of the application
           MaxAcks,             \* acknowledgements carried by one inbound packet
           Ticks,               \* clock steps
+          MaxSubs, SubKinds,   \* further subscribers per level, and their kinds
           Depth                \* 0: unbounded, else bound on the behaviour length
 Bound == Depth = 0 \/ TLCGet("level") <= Depth
 View == core
@@ -19,8 +20,10 @@ Foreign == LET o == Range(ids) \ relIssued IN
 AckTargets == relIssued \cup Foreign \cup {lastId + 1}
 AckSets == {S \in SUBSET AckTargets : Cardinality(S) <= MaxAcks}
 
-RecvRel(p, acks) == Get(rR, p) < MaxRcv /\ Recv(p, TRUE, acks, lastId + 1)
-RecvUnrel(p, acks) == Get(rU, p) < MaxRcv /\ Recv(p, FALSE, acks, -1)
+RecvRel(p, acks) == Get(rR, p) < MaxRcv /\ Recv(p, TRUE, acks, lastId + 1, TRUE)
+\* match = FALSE: the packet is a PacketAck message (needs acks to carry), which the extra subscribers did not ask for
+RecvUnrel(p, acks, match) == Get(rU, p) < MaxRcv /\ (match \/ acks # {}) /\ Recv(p, FALSE, acks, -1, match)
+DoSubscribe(l, k) == Len(subs[l]) < MaxSubs /\ Subscribe(l, k)
 DoSendRel == Cardinality(relIssued) < MaxSends /\ SendRel(lastId + 1)
 \* unreliable sends are counted through a ghost that needs no extra variable: ids issued that
 \* are neither reliable sends nor acknowledgements (one ack per reliable receipt)
@@ -29,7 +32,8 @@ UnrelSent == Len(ids) - Cardinality(relIssued) - SumR
 DoSendUnrel == UnrelSent < MaxUnrel /\ SendUnrel(lastId + 1)
 
 Next == \/ \E p \in RelPids, acks \in AckSets : RecvRel(p, acks)
-        \/ \E p \in UnrelPids, acks \in AckSets : RecvUnrel(p, acks)
+        \/ \E p \in UnrelPids, acks \in AckSets, match \in BOOLEAN : RecvUnrel(p, acks, match)
+        \/ \E l \in Levels, k \in SubKinds : DoSubscribe(l, k)
         \/ Stray
         \/ DoSendRel
         \/ DoSendUnrel
